@@ -72,3 +72,11 @@ impl Clone for Invoke {
         unimplemented!()
     }
 }
+
+// `impl PartialEq for Invoke` of src/fsm.rs (needed only for the bound of `impl<T: Clone + PartialEq> List<T>`; never called here)
+impl PartialEq for Invoke {
+    #[verifier::external_body]
+    fn eq(&self, other: &Self) -> bool {
+        unimplemented!()
+    }
+}
